@@ -42,7 +42,7 @@ def history(rng, n):
     """list of ops; objects are p1..p12 (Trace_Ownership's payload names)"""
     live, ops, nxt = [], [], 1
     for _ in range(n):
-        c = rng.randrange(13)
+        c = rng.randrange(14)
         if c <= 1 and nxt <= 12:
             ops.append(("make", nxt)); live.append(nxt); nxt += 1
         elif c == 2 and nxt <= 12:
@@ -71,6 +71,10 @@ def history(rng, n):
             # a caller-owned scratch buffer from Rust's allocator, given back by the caller (what JS and Dart do for every borrowed
             # list or string, the EMPTY one included)
             ops.append(("alloc_free", rng.choice([0, 0, 1, 16]), rng.choice([1, 2, 8])))
+        elif c == 13 and live:
+            # a CALLER-owned fixed buffer (diplomat_simple_write): slack 0 = the text fills it to the last byte before the terminator,
+            # negative = too small (growth fails), positive = room to spare; the consumer then reads it as a C string
+            ops.append(("describe_fixed", rng.choice(live), rng.choice([1, 1, 2, 3]), rng.choice([0, 0, 3, -2])))
         elif c == 11 and live:
             # a Rust-owned write buffer: created (capacity 0 is what most runtimes pass), written into, read, destroyed
             ops.append(("describe", rng.choice(live), rng.choice([0, 0, 1, 16]), rng.choice([0, 1, 5])))
@@ -121,6 +125,13 @@ def c_driver(ops):
                      "size_t n_ = diplomat_buffer_write_len(w); char* b_ = diplomat_buffer_write_get_bytes(w); "
                      "if (n_ %% 1 != 0 || (n_ && b_[0] != 'o')) dv_log(\"Bad\", \"write\", \"content\"); "
                      "diplomat_buffer_write_destroy(w); dv_log(\"BorrowCall\", \"p%d\", \"\"); }\n" % (op[2], op[1], op[3], op[1]))
+        elif k == "describe_fixed":
+            chunk = len("obj%d;" % op[1])
+            n = max(1, op[2] * chunk + 1 + op[3])
+            L.append("    { size_t N_ = %d; char* b_ = malloc(N_); memset(b_, 0x55, N_); DiplomatWrite w = diplomat_simple_write(b_, N_); "
+                     "Obj_describe(o[%d], %d, &w); w.flush(&w); size_t n_ = strlen(b_); "
+                     "if (n_ > N_ - 1 || (%d && n_ != %d) || (n_ && b_[0] != 'o')) dv_log(\"Bad\", \"fixed write\", \"length or content\"); "
+                     "free(b_); dv_log(\"BorrowCall\", \"p%d\", \"\"); }\n" % (n, op[1], op[2], 1 if op[3] >= 0 else 0, op[2] * chunk, op[1]))
         elif k == "alloc_free":
             L.append("    { uint8_t* b = diplomat_alloc(%d, %d); if (!b || ((uintptr_t)b %% %d)) dv_log(\"Bad\", \"alloc\", \"null or misaligned\"); "
                      "%s diplomat_free(b, %d, %d); }\n" % (op[1], op[2], op[2], ("memset(b, 3, %d);" % op[1]) if op[1] else "", op[1], op[2]))
@@ -149,6 +160,10 @@ def run_leg(rep, tier):
     all_events = []
     for i in range(runs):
         ops = history(rng, rng.randrange(6, 26))
+        if i == 0:
+            # whatever the seed: one exactly-filled fixed buffer (the terminator lands on the last byte)
+            ops = [("make", 12), ("describe_fixed", 12, 2, 0)] + [o for o in ops if not (o[0].startswith("make") and o[1] == 12)
+                                                                   and not (len(o) > 1 and o[1] == 12)] + [("destroy", 12)]
         src = c_driver(ops)
         if "DiplomatCallback_Obj_call_cb_f" not in hdr:
             src = src.replace("DiplomatCallback_Obj_call_cb_f", "DiplomatCallback_Obj_call_cb_f")
